@@ -91,6 +91,8 @@ def _np():
 def canon(v):
     """Canonical, hashable description of a result (value semantics)."""
     np = _np()
+    if is_arraylike(v):
+        v = np.asarray(v)
     if isinstance(v, np.ndarray):
         return ("a", v.dtype.str, tuple(v.shape),
                 np.ascontiguousarray(v).tobytes())
@@ -161,6 +163,12 @@ def rle(b):
     if lit or not segs:
         segs.append("(1, %s)" % common.zlist(list(lit)))
     return "[" + "; ".join(segs) + "]"
+
+
+def tempfile_dir():
+    import tempfile
+    return tempfile.mkdtemp(prefix="verif-C17-al-",
+                            dir=os.environ.get("VERIF_SCRATCH", "/var/tmp"))
 
 
 def zbytes(b):
@@ -380,9 +388,62 @@ def dec_py(t):
     raise ValueError(t)
 
 
-def build_member(A, rec):
+class ArrayLikeWorld:
+    """Two small .rtdc files with datasets of equal name, shape and dtype but
+    other data: h5py datasets, RTDC_HDF5 feature objects and hierarchy-child
+    feature objects as (non-ndarray) array-like arguments."""
+
+    def __init__(self, A, scratch):
+        np = _np()
+        import h5py
+        import dclab
+        from . import gen
+        _REPLAY_N[0] += 1
+        self.objs = []
+        self.h5 = []
+        self.ds = []
+        self.ch = []
+        n = len(A) // 2
+        for k in range(2):
+            path = os.path.join(scratch, "al_%d_%d_%d.rtdc" % (os.getpid(), _REPLAY_N[0], k))
+            a = np.array(A[:n], dtype=np.float64) if k == 0 else np.array(A[:n][::-1])
+            b = np.array(A[n:2 * n], dtype=np.float64) if k == 0 else np.array(A[n:2 * n][::-1])
+            gen.write_spec(path, dict(n=n, features={"area_um": a + 10, "deform": b},
+                                      meta=gen.base_meta()))
+            h = h5py.File(path, "r")
+            d = dclab.new_dataset(path)
+            c = dclab.new_dataset(d)
+            c.rejuvenate()
+            self.h5.append(h)
+            self.ds.append(d)
+            self.ch.append(c)
+            self.objs += [h, d, c]
+
+    def get(self, how, k, feat):
+        if how == "h5d":
+            return self.h5[k]["events"][feat]
+        if how == "h5f":
+            return self.ds[k][feat]
+        return self.ch[k][feat]
+
+    def close(self):
+        for o in reversed(self.objs):
+            try:
+                o.close() if hasattr(o, "close") else o.__exit__(None, None, None)
+            except Exception:
+                pass
+
+
+def is_arraylike(x):
+    np = _np()
+    return (hasattr(x, "__array__") and not isinstance(x, (np.ndarray, np.generic)))
+
+
+def build_member(A, rec, world=None):
     np = _np()
     t = rec[0]
+    if t in ("h5d", "h5f", "chf"):
+        return world.get(t, rec[1], rec[2])
     if t == "s":
         return A[rec[1]:rec[2]]
     if t == "v":
@@ -428,11 +489,11 @@ def build_member(A, rec):
             a[(rec[1] - 1) if (len(rec) > 3 and rec[3]) else rec[1] // 2] += rec[2]
         return a
     if t == "tup":
-        return tuple(build_member(A, r) for r in rec[1])
+        return tuple(build_member(A, r, world) for r in rec[1])
     if t == "lst":
-        return [build_member(A, r) for r in rec[1]]
+        return [build_member(A, r, world) for r in rec[1]]
     if t == "dct":
-        return {k: build_member(A, r) for k, r in rec[1]}
+        return {k: build_member(A, r, world) for k, r in rec[1]}
     if t == "ma":        # masked array, rec[3] = mask bits
         a = A[rec[1]:rec[2]]
         return np.ma.masked_array(a.copy(), mask=[bool((rec[3] >> k) & 1)
@@ -500,6 +561,24 @@ def gen_array_recipe(rng, lo=0, hi=7):
                        ["tup", [["s", i, j], ["py", ["i", 5]]]]])
 
 
+def _p(*xs):
+    return [["py", ["s", x]] if isinstance(x, str) else x for x in xs]
+
+
+# families of argument lists whose naive concatenations coincide
+AMBIGUOUS = [
+    [_p("a", "strb"), _p("astr", "b"), _p("a", "str", "b"), _p("astrb")],
+    [_p("", "ab"), _p("a", "b"), _p("ab", ""), _p("ab")],
+    [[["l", [["L", [["i", 1]]], ["L", [["i", 2], ["i", 3]]]]]],
+     [["l", [["L", [["i", 1], ["i", 2]]], ["L", [["i", 3]]]]]],
+     [["l", [["i", 1], ["i", 2], ["i", 3]]]], [["l", [["L", [["i", 1], ["i", 2], ["i", 3]]]]]]],
+    [_p("int", "5"), [["py", ["i", 5]]], _p("5"), _p("int5")],
+    [[["py", ["s", "x"]], ["py", ["t", []]]], [["py", ["s", "x"]]], [["py", ["s", "x"]], ["l", []]],
+     [["py", ["s", "x"]], ["py", ["s", ""]]]],
+    [_p("ndarray", "<f8", "(1,)"), _p("ndarray<f8(1,)"), _p("ndarray<f8", "(1,)")],
+]
+
+
 PY_POOL = [["py", ["i", 5]], ["py", ["i", 55]], ["l", [["i", 5], ["i", 5]]],
            ["l", [["i", 55]]], ["py", ["t", [["i", 5], ["i", 5]]]],
            ["py", ["s", "55"]], ["py", ["s", "(5, 5)"]], ["py", ["n"]],
@@ -517,6 +596,17 @@ def gen_sig(rng):
     T = N_BASE
     if r < 0.45:
         fname = rng.choice(["probe_a", "probe_a", "probe_b", "probe_c", "probe_d"])
+        c = rng.random()
+        if c < 0.08:
+            # crafted ambiguity: equal concatenations with other boundaries /
+            # values that spell the tags of the encoding
+            fam = rng.choice(AMBIGUOUS)
+            return [fname, rng.choice(fam), {}]
+        if c < 0.16:
+            # array-likes that are not ndarrays: the same dataset of two files
+            how = rng.choice(["h5d", "h5f", "chf"])
+            feat = rng.choice(["area_um", "deform"])
+            return [fname, [[how, rng.randint(0, 1), feat]], {}]
         if rng.random() < 0.4:
             # a split of A[0:k] into consecutive pieces: every other split of
             # the same prefix has the same concatenated bytes
@@ -598,6 +688,10 @@ def gen_sig(rng):
         a, b = ["rev", 0, n], ["s", n, 2 * n]
     if rng.random() < 0.12:
         a = ["bsw", 0, n]
+    if rng.random() < 0.2:
+        how, k = rng.choice(["h5d", "h5f", "chf"]), rng.randint(0, 1)
+        a, b = [how, k, "area_um"], [how, k, "deform"]
+        n = N_BASE // 2
     samples = ["py", ["i", rng.choice([0, 1, 2, 3, n])]]
     pos = [a, b]
     kw = {}
@@ -664,6 +758,8 @@ def gen_cache_case(rng, thorough=False, big=False):
             keys.add(key)
             sigs.append(sg)
         ops.append({"f": sg[0], "pos": sg[1], "kw": sg[2]})
+        if rng.random() < 0.08:
+            ops[-1]["wa"] = 1
         nouts += 1
     # calls made and wiped with Cache.clear_cache() before the history starts
     prefill = rng.choice([0, 0, 2, cap0 + 2]) if not big else rng.choice([0, 3])
@@ -714,6 +810,9 @@ class AtomPool:
 
     def atom(self, arg):
         np = _np()
+        if is_arraylike(arg):
+            # array-likes that are not ndarrays denote their data
+            arg = np.asarray(arg)
         if isinstance(arg, np.ndarray):
             dt = arg.dtype.str
             if arg.dtype.names is not None:
@@ -755,7 +854,7 @@ Definition mkcase (newkey cpy cap : Z) (pool : list (Z * bytes * bytes * list (Z
 """
 
 
-def run_cache_case(case, memos=None):
+def run_cache_case(case, memos=None, scratch=None):
     """-> dict(flat, render, fail, nontrivial, notes)"""
     np = _np()
     import dclab.cached as cached
@@ -773,6 +872,7 @@ def run_cache_case(case, memos=None):
     notes = []
     hits = misses = 0
     old_max = cached.MAX_SIZE
+    world = None
     keyrec = []          # (rendered single-call case, bytes fed to md5)
     fedmap = {}          # digest of the md5 input -> (signature, fresh result, op)
     keycoll = None
@@ -804,10 +904,19 @@ def run_cache_case(case, memos=None):
                 continue
             m = memos[op["f"]]
             # fresh argument objects for the two calls
-            pos1 = [build_member(A, r) for r in op["pos"]]
-            kw1 = {k: build_member(A, r) for k, r in op["kw"].items()}
-            pos2 = [build_member(A, r) for r in op["pos"]]
-            kw2 = {k: build_member(A, r) for k, r in op["kw"].items()}
+            if world is None and "h5" in json.dumps([op["pos"], op["kw"]]) \
+                    or world is None and "chf" in json.dumps([op["pos"], op["kw"]]):
+                world = ArrayLikeWorld(A, scratch or tempfile_dir())
+            pos1 = [build_member(A, r, world) for r in op["pos"]]
+            kw1 = {k: build_member(A, r, world) for k, r in op["kw"].items()}
+            pos2 = [build_member(A, r, world) for r in op["pos"]]
+            kw2 = {k: build_member(A, r, world) for k, r in op["kw"].items()}
+            if op.get("wa"):
+                # private copies that are written to after the call: the table
+                # must not hold on to the caller's arrays
+                pos2 = [a.copy() if isinstance(a, np.ndarray) else a for a in pos2]
+                kw2 = {k: (a.copy() if isinstance(a, np.ndarray) else a)
+                       for k, a in kw2.items()}
             okf, vf = safe_call(m.fresh, *pos1, **kw1)
             cf = canon(vf) if okf else ("exc", vf)
             if cf not in fv_ids:
@@ -842,6 +951,9 @@ def run_cache_case(case, memos=None):
             hit = 1 if m.ncalls() == n0 else 0
             hits += hit
             misses += 1 - hit
+            if op.get("wa"):
+                mutate_in_place([a for a in list(pos2) + list(kw2.values())
+                                 if isinstance(a, np.ndarray) and a.flags.writeable])
             if okc and okf:
                 st = 0 if canon(vc) == cf else 1
                 outs.append(vc)
@@ -871,6 +983,8 @@ def run_cache_case(case, memos=None):
         cached.MAX_SIZE = old_max
         cached.Cache.clear_cache()
         Md5Shim.uninstall(cached, shim)
+        if world is not None:
+            world.close()
         if own:
             for m in memos.values():
                 m.restore()
@@ -1179,13 +1293,19 @@ def render_pobj(obj):
     raise ValueError("no pobj for %r" % type(obj))
 
 
+_TIE_SKIPPED = [0]
+
+
 def _anc_hash_tie(ds, feat):
     """What AncillaryFeature.hash feeds to md5 for `feat`, and the items the
     model's anc_key is applied to."""
     try:
         from dclab.rtdc_dataset.feat_anc_core import ancillary_feature as afm
         af = afm.AncillaryFeature.available_features(ds)[feat]
-        items = [render_pobj(ds[col]) for col in af.req_features]
+        items = []
+        if getattr(af, "identifier", None) is not None:
+            items.append(render_pobj(af.identifier))
+        items += [render_pobj(ds[col]) for col in af.req_features]
         for sec, keys in af.req_config:
             for key in keys:
                 items.append(render_pobj("{}:{}={}".format(sec, key, ds.config[sec][key])))
@@ -1201,8 +1321,8 @@ def _anc_hash_tie(ds, feat):
         finally:
             Md5Shim.uninstall(afm, shim)
         return (common.clist(["(%s)" % it for it in items]), fed)
-    except Exception:
-        return None
+    except Exception as e:
+        return ("SKIPPED", repr(e)[:200])
 
 
 def gen_o2b_values(rng):
@@ -1267,6 +1387,11 @@ def run_anc_case(case):
             ds.config["imaging"]["pixel size"] = pix
         else:
             okc, vc = safe_call(_anc_read, ds, op[1])
+            if okc and op[1] != "contour":
+                okm, arr = safe_call(lambda: ds[op[1]])
+                if okm and isinstance(arr, np.ndarray):
+                    mutate_in_place(arr)        # must be refused or have no effect
+                    okc, vc = safe_call(_anc_read, ds, op[1])
             if okc and len(anc_tie) < 2 and op[1] in ("deform", "volume"):
                 tie = _anc_hash_tie(ds, op[1])
                 if tie is not None:
@@ -1469,8 +1594,11 @@ def gen_tempset_case(rng):
     ops += [["set", lv, rng.randint(2, 9)]] + [["read", l, w] for l in (0, 1, 2)
                                               for w in rng.sample(["values", "max", "mean"], 2)]
     for _ in range(rng.randint(8, 24)):
-        if rng.random() < 0.3:
+        r = rng.random()
+        if r < 0.3:
             ops.append(["set", rng.choice([0, 1, 2, 2]), rng.randint(2, 9)])
+        elif r < 0.45:
+            ops.append(["mut", rng.randint(0, 2)])
         else:
             ops.append(["read", rng.randint(0, 2), rng.choice(["values", "max", "min", "mean"])])
     return dict(kind="tempset", base=base, keeps=keeps, hdf5=rng.random() < 0.4, ops=ops)
@@ -1540,6 +1668,15 @@ def run_tempset_case(case, scratch):
                 continue
             if root_temp is None:
                 continue
+            if op[0] == "mut":
+                # write to the temporary feature as read from level op[1]
+                okm, arr = safe_call(lambda: levels[op[1]]["userdef1"][:])
+                if okm:
+                    mutate_in_place(arr)
+                okm, arr = safe_call(lambda: levels[op[1]]["userdef1"])
+                if okm and isinstance(arr, np.ndarray):
+                    mutate_in_place(arr)
+                continue
             lv, what = op[1], op[2]
             ref = chain(root_temp)
             okc, vc = safe_call(read, levels, lv, what)
@@ -1601,6 +1738,8 @@ def gen_hashfile_case(rng, thorough=False):
             ops.append(["d", p])
         elif r < 0.31 and p in written:
             ops += [["h", p, 0, 0], ["wp", p, rng.randint(0, 40)], ["h", p, 0, 0]]
+        elif r < 0.33 and p in written:
+            ops += [["h", p, 0, 0], ["wq", p, rng.randint(0, 40)], ["h", p, 0, 0]]
         else:
             v = rng.choice([0, 0, 1, 1, 2, 3, 4, 5, 6, 7, 8, 9, -1])
             ops.append(["h", p, v, rng.randint(0, 2)])
@@ -1705,6 +1844,25 @@ def run_hashfile_case(case, scratch):
             st = p.stat()
             key = (st.st_mtime_ns, st.st_size)
             shared[pi].setdefault(key, [seen[pi].get(key)]).append(cid)
+            seen[pi][key] = cid
+            cur[pi] = cid
+            rops.append("(0, %d, %d, %d, %d)" % (pi, cid, key[1], key[0]))
+        elif op[0] == "wq":
+            # rewrite with ANOTHER size and put the old mtime back (cp -p of a
+            # shorter file): the key still changes, the hash must be fresh
+            pi, cid = op[1], op[2]
+            p = paths[pi]
+            if cur[pi] is None or not p.exists():
+                continue
+            st0 = p.stat()
+            while len(hf_content(cid)) == st0.st_size:
+                cid += 1
+            p.write_bytes(hf_content(cid))
+            os.utime(p, ns=(st0.st_atime_ns, st0.st_mtime_ns))
+            st = p.stat()
+            key = (st.st_mtime_ns, st.st_size)
+            if key in seen[pi] and seen[pi][key] != cid:
+                shared[pi].setdefault(key, [seen[pi].get(key)]).append(cid)
             seen[pi][key] = cid
             cur[pi] = cid
             rops.append("(0, %d, %d, %d, %d)" % (pi, cid, key[1], key[0]))
@@ -1953,8 +2111,12 @@ def gen_obj_ops(rng, n, lossy_first=None):
             ops.append(["m", rng.randint(0, nouts - 1), rng.choice([8, 16, -24, 56])])
             continue
         if r < 0.34 and nouts:
-            if rng.random() < 0.7:
-                ops.append(["x", rng.choice(["max", "min", "mean"])])
+            c = rng.random()
+            if c < 0.5:
+                ops.append(["r", 7, rng.choice([0, 1])])     # .max() / .min()
+                nouts += 1
+            elif c < 0.7:
+                ops.append(["x", "mean"])
             else:
                 ops.append(["x", "cf", rng.choice([0, 1, 2, 3])])
             continue
@@ -2081,6 +2243,10 @@ def run_obj_ops(obj, data8, ops, nat=3):
                 res = np.array(obj, dtype=dt, copy=None)
             want = np.array(exp, dtype=dt)
             rops.append("(0, 4, %d, %d, [])" % (d, cp))
+        elif kind == 7:
+            res = np.array([obj.max() if op[2] == 0 else obj.min()])
+            want = np.array([np.max(exp) if op[2] == 0 else np.min(exp)])
+            rops.append("(0, 7, %d, 0, [])" % op[2])
         else:
             res = np.array([obj[op[2]]])
             want = exp[op[2]:op[2] + 1]
@@ -2188,9 +2354,20 @@ def build_obj_world(run, scratch, tag):
                     dtype=np.uint64)
     basin_ok = True
     path = bpath = None
+    strip = rng.random() < 0.5
     try:
         path, bpath = _write_basin_pair(scratch, tag, dict(spec["features"]), bmap,
                                         spec["meta"])
+        if strip:
+            # files of writers that store no min/max/mean attributes: the
+            # summaries are then computed and cached by the feature object
+            import h5py
+            with h5py.File(path, "a") as h5:
+                for f in h5["events"]:
+                    for a in ("min", "max", "mean"):
+                        if a in h5["events"][f].attrs:
+                            del h5["events"][f].attrs[a]
+            run.count("obj:world-without-summary-attrs")
     except Exception as e:  # pragma: no cover
         basin_ok = False
         run.notes.append("basin file not written: %r" % (e,))
@@ -2278,14 +2455,89 @@ def gen_alias_case(rng):
             ops.append(["read", rng.randint(0, 2), rng.randint(0, 9), rng.randint(0, n - 1)])
             nouts += 1
     return dict(kind="alias", n=n, seed=rng.randint(0, 10 ** 6),
-                root=rng.choice(["dict", "hdf5"]), user_contour=rng.random() < 0.5, ops=ops)
+                root=rng.choice(["dict", "hdf5", "dict", "hdf5", "tdms"]),
+                user_contour=rng.random() < 0.5, ops=ops)
 
 
 ALIAS_PATHS = ["index", "image_i", "mask_i", "trace_i", "trace_all", "contour_i",
                "deform_all", "image_all", "mask_all", "deform_slice"]
 
 
+TDMS_PATHS = ["circ_all", "pos_x_slice", "trace_i", "deform_all", "index", "fl1_max_all",
+              "trace_j", "area_cvx_all", "size_x_all", "circ_item_slice"]
+
+
+def run_alias_tdms_case(case, scratch):
+    """Kind alias on an RTDC_TDMS root (fixture of the test suite) and its child:
+    the reference is a second, untouched instance of the same files."""
+    np = _np()
+    import zipfile
+    import dclab
+    zp = os.path.join(common.REPO, "tests", "data", "fmt-tdms_fl-image_2016.zip")
+    if not os.path.exists(zp):
+        return dict(fail=None, nontrivial=False, skipped="no tdms fixture")
+    _REPLAY_N[0] += 1
+    d = os.path.join(scratch, "tdms_%d_%d" % (os.getpid(), _REPLAY_N[0]))
+    zipfile.ZipFile(zp).extractall(d)
+    tps = [os.path.join(r, f) for r, _, fs in os.walk(d) for f in fs
+           if f.endswith(".tdms") and not f.endswith("_traces.tdms")]
+    objs = []
+
+    def chain():
+        ds = dclab.new_dataset(sorted(tps)[0])
+        ds.filter.manual[::3] = False
+        ds.apply_filter()
+        ch = dclab.new_dataset(ds)
+        ch.rejuvenate()
+        objs.extend([ds, ch])
+        return [ds, ch]
+
+    def read(levels, lv, path, i):
+        ds = levels[lv]
+        i = i % len(ds)
+        if path.endswith("_all"):
+            return ds[path[:-4]][:]
+        if path == "pos_x_slice":
+            return ds["pos_x"][1:4]
+        if path == "circ_item_slice":
+            return ds["circ"][i:i + 2]
+        if path == "index":
+            return ds["index"][:]
+        return ds["trace"]["fl1_raw" if path == "trace_i" else "fl1_median"][i]
+
+    try:
+        levels = chain()
+        ref = chain()
+        outs = []
+        fail = None
+        muts = reads_after = 0
+        for k, op in enumerate(case["ops"]):
+            if op[0] == "mut":
+                if op[1] < len(outs) and outs[op[1]] is not None:
+                    mutate_in_place(outs[op[1]])
+                    muts += 1
+                continue
+            lv, path = op[1] % 2, TDMS_PATHS[op[2] % len(TDMS_PATHS)]
+            okc, vc = safe_call(read, levels, lv, path, op[3])
+            okf, vf = safe_call(read, ref, lv, path, op[3])
+            outs.append(vc if okc and isinstance(vc, np.ndarray) else None)
+            if muts:
+                reads_after += 1
+            good = (okc == okf) and ((not okc and vc == vf) or (
+                okc and np.asarray(vc).shape == np.asarray(vf).shape
+                and bool(np.array_equal(np.asarray(vc), np.asarray(vf), equal_nan=True))))
+            if not good and fail is None:
+                fail = ("op %d: %s of level %d (tdms root) differs from an untouched "
+                        "instance of the same files after earlier in-place modifications "
+                        "of returned arrays" % (k, path, lv))
+        return dict(fail=fail, nontrivial=muts > 0 and reads_after > 0)
+    finally:
+        _close_all(objs)
+
+
 def run_alias_case(case, scratch):
+    if case.get("root") == "tdms":
+        return run_alias_tdms_case(case, scratch)
     np = _np()
     import random as _r
     import dclab
@@ -2418,6 +2670,8 @@ def run_obj_checks(run, nworlds, kinds=None):
                 objs, obj, expd = opener()
             except Exception as e:
                 run.notes.append("obj %s/%s not opened: %r" % (kind, feat, e))
+                run.broken.append(("coverage(obj:%s)" % kind,
+                                   "object could not be opened: %r" % (e,)))
                 continue
             try:
                 if kind == "basin-nd":
@@ -2531,7 +2785,7 @@ def classify(case, desc):
 def exec_case(case, scratch, memos=None):
     k = case.get("kind")
     if k == "cache":
-        return run_cache_case(case, memos)
+        return run_cache_case(case, memos, scratch)
     if k == "public":
         return run_public_case(case, memos)
     if k == "dsapi":
@@ -2612,7 +2866,7 @@ def run(run):
     t = run.thorough
     cases = load_corpus()
     run.count("corpus", len(cases))
-    n_cache_small, n_cache_big = (100, 25) if t else (16, 4)
+    n_cache_small, n_cache_big = (100, 25) if t else (14, 4)
     for _ in range(n_cache_small):
         cases.append(gen_cache_case(rng, t))
     for _ in range(n_cache_big):
@@ -2671,6 +2925,30 @@ def run(run):
             run.count("obj:" + c["obj"])
             if c["ops"] and c["ops"][0][:2] == ["r", 4] and c["ops"][0][2] in (1, 2):
                 run.count("obj:lossy-dtype-first")
+        if k == "cache":
+            def walk(r):
+                if isinstance(r, list) and r and isinstance(r[0], str):
+                    run.count("pool:" + r[0])
+                    for x in r[1:]:
+                        if isinstance(x, list):
+                            for y in x:
+                                walk(y)
+                                if isinstance(y, list) and len(y) == 2 and isinstance(y[1], list):
+                                    walk(y[1])
+            for o in c["ops"]:
+                if "f" in o:
+                    run.count("cacheop:call:" + o["f"])
+                    if o.get("wa"):
+                        run.count("cacheop:write-to-argument-after-call")
+                    for r in list(o["pos"]) + list(o["kw"].values()):
+                        walk(r)
+                else:
+                    run.count("cacheop:" + next(iter(o)))
+        if k == "alias":
+            run.count("alias:root=" + c.get("root", "?"))
+        if res.get("skipped"):
+            run.count(k + ":skipped(" + res["skipped"] + ")")
+            run.broken.append(("coverage(%s)" % k, res["skipped"]))
         if res.get("crashed"):
             run.count("case-raised-unexpectedly")
         elif k == "cache":
@@ -2738,7 +3016,12 @@ def run(run):
     uf_items = []
     for c, res in done:
         if c["kind"] == "anc":
-            anc_items += res.get("anc_tie", [])
+            for it in res.get("anc_tie", []):
+                if it[0] == "SKIPPED":
+                    run.count("anc_key:tie-skipped")
+                    run.broken.append(("tie(anc_key)", "could not be evaluated: " + it[1]))
+                else:
+                    anc_items.append(it)
         if c["kind"] == "ufunc" and "render" in res:
             uf_items.append((c, res))
     tt = time.time()
@@ -2753,7 +3036,7 @@ def run(run):
     except common.ModelError:
         raise
     except Exception as e:
-        run.notes.append("obj2bytes tie not evaluated: %r" % (e,))
+        run.broken.append(("tie(obj2bytes)", "could not be evaluated: %r" % (e,)))
     run.extra["phase_seconds"]["ties_anc_o2b"] = round(time.time() - tt, 1)
     tt = time.time()
     if uf_items:
